@@ -304,6 +304,220 @@ def analyse_c02(names=None, jobs=None):
     return {r['module']: r for r in res}
 
 
+def kind_of(I, env, v):
+    S = I.ctx.S
+    from .expr import DictV
+    if isinstance(v, Str):
+        return 'str'
+    if isinstance(v, Opaque):
+        return v.kind
+    if isinstance(v, Maybe):
+        return '|'.join(sorted(set(kind_of(I, env, a) for a in v.alts)))
+    if v is NONE or isinstance(v, RegNone):
+        return 'None'
+    if isinstance(v, (Tup, ListOf, RegInfo)):
+        return 'seq'
+    if isinstance(v, (RegDict, DictV)):
+        return 'dict'
+    if isinstance(v, Int):
+        return 'int'
+    if isinstance(v, Bool):
+        return 'bool'
+    if v is TOP:
+        return 'any'
+    return type(v).__name__.lower()
+
+
+def eligible_functions(prog, mn):
+    m = prog.mods[mn]
+    names = set(m.funcs) | set(m.aliases) | set(m.imports)
+    out = []
+    for name in sorted(names):
+        if not (name.startswith('get_') or name.startswith('to_') or name in ('info', 'split', 'format')):
+            continue
+        if name in ('get_soap_client', 'get_cc_module'):
+            continue
+        rr = prog.resolve_name(m, name)
+        if not rr or rr[0] != 'func':
+            continue
+        gnode = prog.mods[rr[1]].funcs[rr[2]]
+        req = [a.arg for a in gnode.args.args][:len(gnode.args.args) - len(gnode.args.defaults)]
+        if len(req) != 1:
+            continue
+        out.append((name, rr[1], rr[2], gnode))
+    return out
+
+
+def _functions_worker(mn):
+    """Getters, format and conversions analysed under validate()'s post-condition."""
+    I = get_interp()
+    S, B = I.ctx.S, I.B
+    prog = I.prog
+    r = prog.resolve_name(prog.mods[mn], 'validate')
+    fmod, fn = r[1], r[2]
+    fnode = prog.mods[fmod].funcs[fn]
+    out = {'module': mn, 'functions': {}, 'crash': None}
+    try:
+        env = Env()
+        I.ctx.scopes = [[]]
+        I.ctx.stack = [(mn, '<entry>')]
+        I.ctx.unsupported = []
+        I.closures = []
+        I.memo = {}
+        args = entry_args(I, fnode, env)
+        # default options of validate: the accepted language users normally get
+        outs = I.call_func(Func(fmod, fn), args, {}, fnode, env, multi=True)
+        if not isinstance(outs, list):
+            return out
+        vals = []
+        for e, v in outs:
+            if not isinstance(v, Str):
+                continue
+            # decided for ASCII spellings (non-ASCII results are C15's finding)
+            e = e.copy()
+            S.refine_all(e, v, S.ASCII)
+            if e.dead:
+                continue
+            if not v.fixed and v.hi is not None and v.hi - (v.lo or 0) <= 40:
+                # specialise bounded variable-length numbers by length
+                for n in range(v.lo or 0, v.hi + 1):
+                    e2 = e.copy()
+                    m_ = S.materialise(e2, v, n)
+                    if m_ is not None and not e2.dead:
+                        m_.sid = fresh_id()
+                        vals.append((e2, m_))
+            else:
+                vals.append((e, v))
+        for name, gmod, gname, gnode in eligible_functions(prog, mn):
+            rec = {'alarms': [], 'kinds': set(), 'paths': 0, 'genders': set(), 'tilings': 0, 'tiling_problems': [], 'literals': set(), 'notes': [],
+                   'where': (rel(prog.mods[gmod].path), gnode.lineno)}
+            seen = set()
+            for e0, v in vals:
+                e = e0.copy()
+                e.frames = [{}]
+                I.ctx.scopes = [[]]
+                I.ctx.stack = [(mn, '<entry>')]
+                I.closures = []
+                I.ctx.unsupported = []
+                try:
+                    gouts = I.call_func(Func(gmod, gname), [v], {}, gnode, e, multi=True)
+                except Exception as ex:
+                    rec['notes'].append('engine error: %s' % str(ex)[:80])
+                    I.closures = []
+                    continue
+                for ev in I.ctx.scopes[0]:
+                    if is_ve(ev.kind):
+                        continue
+                    d = describe_event(I, ev)
+                    k = (d['kind'], d['module'], d['func'], d['construct'], d['reg'])
+                    if k not in seen:
+                        seen.add(k)
+                        d['input'] = S.describe(e0, v)[:100]
+                        rec['alarms'].append(d)
+                rec['notes'].extend('%s:%s %s' % (a[0].replace('stdnum.', '') + '.' + a[1], b, c) for a, b, c in I.ctx.unsupported[:3])
+                if not isinstance(gouts, list):
+                    continue
+                for ge, gv in gouts:
+                    rec['paths'] += 1
+                    rec['kinds'].add(kind_of(I, ge, gv))
+                    if name == 'get_gender':
+                        if isinstance(gv, Str):
+                            vals_ = S.enum_values(ge, gv, 8)
+                            rec['genders'].add(','.join(vals_) if vals_ else S.describe(ge, gv)[:40])
+                        else:
+                            rec['genders'].add(kind_of(I, ge, gv))
+                    if name == 'split' and v.fixed:
+                        parts = gv.elems if isinstance(gv, Tup) else None
+                        if parts is not None and all(isinstance(x, Str) and x.fixed for x in parts):
+                            cells = [c for x in parts for c in x.pre]
+                            rec['tilings'] += 1
+                            if cells != list(v.pre):
+                                rec['tiling_problems'].append('length %d: parts do not concatenate to the number (positions %s)'
+                                                              % (len(v.pre), [list(v.pre).index(c) if c in v.pre else '?' for c in cells]))
+                        else:
+                            rec['notes'].append('split result not a tuple of fixed strings')
+                    if name == 'format' and isinstance(gv, Str):
+                        # compact(format(x)) must be compact(x): run the module's compact on the formatted value
+                        rc = prog.resolve_name(prog.mods[mn], 'compact')
+                        if rc and rc[0] == 'func':
+                            cnode = prog.mods[rc[1]].funcs[rc[2]]
+                            ec = ge.copy()
+                            ec.frames = [{}]
+                            I.ctx.scopes.append([])
+                            I.ctx.stack = [(mn, '<entry>')]
+                            try:
+                                couts = I.call_func(Func(rc[1], rc[2]), [gv], {}, cnode, ec, multi=True)
+                            finally:
+                                I.ctx.scopes.pop()
+                            rec['roundtrips'] = rec.get('roundtrips', 0) + 1
+                            def same_pos(ce, a, b):
+                                if a == b:
+                                    return True
+                                ca, cb = ce.cls(a), ce.cls(b)
+                                ex = B.exact_chars(ca)
+                                return ca == cb and ex is not None and len(ex) == 1
+                            good = isinstance(couts, list) and couts and all(
+                                isinstance(cv, Str) and (cv.sid == v.sid or (cv.fixed and v.fixed and len(cv.pre) == len(v.pre)
+                                                                             and all(same_pos(ce, a, b) for a, b in zip(cv.pre, v.pre)))) for ce, cv in couts)
+                            if not good:
+                                d0 = S.describe(ge, gv)[:70]
+                                d1 = (S.describe(couts[0][0], couts[0][1])[:70] if isinstance(couts, list) and couts and isinstance(couts[0][1], Str) else 'no result')
+                                rec.setdefault('roundtrip_problems', []).append('number %s -> format %s -> compact %s' % (S.describe(e0, v)[:60], d0, d1))
+                        if v.fixed and gv.fixed:
+                            srcc = list(v.pre)
+                            seq = [c for c in gv.pre if not isinstance(c, frozenset)]
+                            lits = [c for c in gv.pre if isinstance(c, frozenset)]
+                            rec['tilings'] += 1
+                            if seq != srcc:
+                                pos = [srcc.index(c) if c in srcc else '?' for c in seq]
+                                rec['tiling_problems'].append('length %d: output carries positions %s of the number' % (len(srcc), pos))
+                            for c in lits:
+                                ex_ = B.exact_chars(c)
+                                rec['literals'].add(''.join(sorted(ex_)) if ex_ is not None else '<class>')
+                        elif v.fixed:
+                            rec['tilings'] += 1
+                            rec['tiling_problems'].append('length %d: output shape %s cannot be related to the input positions' % (len(v.pre), S.describe(ge, gv)[:60]))
+                        else:
+                            # variable length input: same string identity or cell-wise containment is not checkable
+                            if gv.sid != v.sid:
+                                rec['tilings'] += 1
+                                rec['tiling_problems'].append('variable-length number %s: output %s' % (S.describe(e0, v)[:50], S.describe(ge, gv)[:50]))
+                            else:
+                                rec['tilings'] += 1
+            rec['kinds'] = sorted(rec['kinds'])
+            rec['genders'] = sorted(rec['genders'])
+            rec['literals'] = sorted(rec['literals'])
+            rec['notes'] = sorted(set(rec['notes']))[:5]
+            out['functions'][name] = rec
+    except Exception:
+        import traceback
+        out['crash'] = traceback.format_exc()[-1500:]
+    return out
+
+
+def analyse_functions(names=None, jobs=None, use_cache=True):
+    jobs = jobs or min(16, os.cpu_count() or 1)
+    key = tree_digest('functions-v1')
+    cpath = os.path.join(os.environ.get('SA_CACHE', os.path.join(VERIF, '.cache')), 'functions-%s.pkl' % key[:20])
+    if use_cache and names is None and os.path.exists(cpath):
+        try:
+            with open(cpath, 'rb') as fh:
+                return pickle.load(fh)
+        except Exception:
+            pass
+    I = get_interp()
+    mods = names or I.prog.number_modules()
+    res = _pool_map(_functions_worker, list(mods), jobs)
+    out = {r['module']: r for r in res}
+    if use_cache and names is None:
+        os.makedirs(os.path.dirname(cpath), exist_ok=True)
+        tmp = cpath + '.%d' % os.getpid()
+        with open(tmp, 'wb') as fh:
+            pickle.dump(out, fh)
+        os.replace(tmp, cpath)
+    return out
+
+
 def _pool_map(fn, items, jobs):
     if jobs <= 1 or len(items) <= 2:
         return [fn(x) for x in items]
